@@ -197,7 +197,7 @@ class Model:
             if node.behind:
                 raise Unsupported("look-behind")
             self._prepare(node.subpattern)
-        elif t == "Group":
+        elif t in ("Group", "Atomic"):
             self._prepare(node.subpattern)
         elif t == "CallGroup":
             if str(node.group) != "0":
@@ -280,6 +280,9 @@ class Model:
                 return None
             if t == "Group":
                 return m(node.subpattern, i, k)
+            if t == "Atomic":
+                r = m(node.subpattern, i, lambda i2: i2)
+                return None if r is None else k(r)
             if t == "CallGroup":
                 return m(self.root, i, k)
             if t == "StartOfString":
@@ -334,6 +337,29 @@ class MatchProxy:
 
     def __bool__(self):
         return True
+
+
+class SymLiteral:
+    """re.escape() of a symbolic string: a literal pattern that is never matched by C10/C11."""
+
+    def __init__(self, s):
+        self.s = s
+
+    def __format__(self, spec):
+        return symx.OPAQUE_MARK
+
+    def __str__(self):
+        return symx.OPAQUE_MARK
+
+
+class OpaquePattern:
+    """A pattern built from symbolic grammar text; only its existence is modelled."""
+
+    def __init__(self, pattern, flags):
+        self.pattern, self.flags = pattern, flags
+
+    def __getattr__(self, name):
+        raise Unsupported(f"regex built from symbolic grammar text: .{name}")
 
 
 _MODELS: dict[tuple[str, int], Model] = {}
@@ -421,9 +447,17 @@ def install() -> types.ModuleType:
     def compile(pattern, flags=0, **kw):  # noqa: A001
         if isinstance(pattern, PatternProxy):
             return pattern
+        if isinstance(pattern, SymLiteral) or (isinstance(pattern, str) and symx.OPAQUE_MARK in pattern):
+            return OpaquePattern(pattern, flags)
         return PatternProxy(_real.compile(pattern, flags, **kw))
 
+    def escape(pattern, *a, **kw):
+        if isinstance(pattern, SymStr):
+            return SymLiteral(pattern)
+        return _real.escape(pattern, *a, **kw)
+
     shim.compile = compile
+    shim.escape = escape
     shim.Pattern = PatternProxy
     sys.modules["regex"] = shim
     return shim
